@@ -162,7 +162,7 @@ func (j *dtJob) run(bin string, dir string) {
 		args = append(args, "-file="+j.alone)
 	}
 	args = append(args, j.pkg.pattern())
-	j.exit, j.output = runIn(dir, bin, args...)
+	j.exit, j.output = runCff(dir, bin, args...)
 	after, err := snapshot(dir)
 	if err != nil {
 		j.err = err
